@@ -17,6 +17,7 @@
  * (the counting umem never refuses) and every answer is the model's. */
 #include "vp.h"
 #include "tape.h"
+#include "faultmalloc.h"
 #include "umem_count.h"
 #include "upipe/ubase.h"
 #include "upipe/udict.h"
@@ -24,6 +25,10 @@
 #include <stdlib.h>
 #include <stdio.h>
 #include <inttypes.h>
+/* the harness' own allocations (model copies) are never refused: only the library code expanded from the headers above is */
+#undef malloc
+#undef calloc
+#undef realloc
 
 #define MAXD 4
 #define MAXOPS 64
@@ -38,7 +43,7 @@ enum { CL_REPL_DIFF, CL_REPL_SAME, CL_DEL_NOTLAST, CL_DEL_ABSENT, CL_GREW, CL_AL
        CL_ALIAS_MOVED, CL_ALIAS_REALLOC, CL_SH_VAR, CL_SH_FIXED, CL_NAMED_SHNAME, CL_PREFIX, CL_TYPECONF,
        CL_BIG, CL_MAXSZ, CL_EXACTFIT, CL_SIZE0, CL_IMPORT_OVER, CL_IMPORT_RESIZE, CL_CMP_EQ, CL_CMP_VALUE,
        CL_CMP_SUBSET, CL_CMP_OTHER, CL_DUP, CL_COPY, CL_DUP_THEN_MUT, CL_NEG_INT, CL_FLOAT_SPECIAL,
-       CL_POOL, CL_MULTI, CL_SIZE_BYTE };
+       CL_POOL, CL_MULTI, CL_SIZE_BYTE, CL_FAULT, CL_FAULT_FAILED };
 static const char *const class_names[] = {
     "replace_var_different_size", "replace_var_same_size", "delete_not_last", "delete_absent_refused",
     "storage_grew", "alias_source", "alias_same_key_resized", "alias_source_moved_by_delete", "alias_with_realloc",
@@ -46,7 +51,8 @@ static const char *const class_names[] = {
     "same_name_two_types", "value_ge_4k", "value_at_documented_max", "set_exactly_fills_storage", "opaque_size_0",
     "import_overwrites", "import_overwrites_different_size", "cmp_models_equal", "cmp_one_value_differs",
     "cmp_strict_subset", "cmp_other_difference", "dup", "copy", "mutation_after_dup_or_copy", "negative_int_or_rational",
-    "float_special", "pool_depth_gt0", "three_or_more_dicts", "tlv_size_crosses_255", NULL };
+    "float_special", "pool_depth_gt0", "three_or_more_dicts", "tlv_size_crosses_255",
+    "allocation_refused_inside_operation", "operation_failed_after_refused_allocation", NULL };
 
 /* names of the shorthand attributes as documented next to enum udict_type */
 static const char *const sh_doc[NSH] = {
@@ -91,7 +97,8 @@ struct ctx {
     unsigned pat;
     int ret;
     uint64_t hash;
-    uint32_t cls;
+    uint64_t cls;
+    bool faultmode;
     const char *opname;
     char what[200];
     int touched;                        /* dictionary changed by the current operation, or -1 */
@@ -100,9 +107,13 @@ struct ctx {
 static uint8_t valbuf[65536 + 16];
 
 #define R(...) do { if (c->render) vp_render(c->rep, __VA_ARGS__); } while (0)
+/* allocation fault injection (engine/faultmalloc.h): in a share of the cases the n-th allocation inside an operation is refused.
+ * The operation may then report an error -- a set leaves the dictionary as it was, an import leaves every attribute either as it was
+ * or as the source has it -- but whatever reports success must have taken effect completely. */
+#define FAULTED() (vp_fault_refused() > 0)
 #define FAILK(oracle, ...) do { if (!c->ret) { char k_[96]; snprintf(k_, sizeof k_, "C10/%s/%s", oracle, c->opname); \
                                 c->ret = vp_fail(c->rep, k_, __VA_ARGS__); } } while (0)
-#define CLS(b) (c->cls |= 1u << (b))
+#define CLS(b) (c->cls |= 1ull << (b))
 
 /* ------------------------------------------------------------------ keys */
 static bool key_is_sh(int k) { return k >= NNAMED; }
@@ -318,7 +329,7 @@ static int do_alloc(struct ctx *c, int slot, size_t size)
     struct mdict *m = &c->md[slot];
     release(c, slot);
     m->d = udict_alloc(c->mgr, size);
-    if (!m->d) { FAILK("alloc", "udict_alloc(%zu) fails", size); return -1; }
+    if (!m->d) { if (FAULTED()) return -1; FAILK("alloc", "udict_alloc(%zu) fails", size); return -1; }
     m->cap = size > (size_t)c->min_eff ? size : (size_t)c->min_eff;
     return 0;
 }
@@ -521,7 +532,7 @@ static void op_set(struct ctx *c)
         err = udict_set_opaque_from_hex(m->d, hx, key_type(k), key_name(k));
     } else err = real_set(c, m->d, k, valbuf, n);
     R("  %s -> %d%s\n", c->what, err, was ? (old != n ? " [replaces, other size]" : " [replaces]") : "");
-    if (!ubase_check(err)) { FAILK("set-refused", "%s returns error %d inside the documented domain", c->what, err); return; }
+    if (!ubase_check(err)) { if (FAULTED()) { CLS(CL_FAULT_FAILED); return; } FAILK("set-refused", "%s returns error %d inside the documented domain", c->what, err); return; }
     m_set(m, k, valbuf, n);
     after_store(c, m, k, was, old, n, re0);
 }
@@ -624,7 +635,7 @@ static void op_alias(struct ctx *c)
     if (t_str) err = udict_set_string(m->d, (const char *)p + off, key_type(k), key_name(k));
     else { struct udict_opaque o; o.v = p + off; o.size = len; err = udict_set_opaque(m->d, o, key_type(k), key_name(k)); }
     R("  %s -> %d%s\n", c->what, err, was ? (old != len ? " [replaces, other size]" : " [replaces]") : "");
-    if (!ubase_check(err)) { FAILK("set-refused", "%s returns error %d", c->what, err); return; }
+    if (!ubase_check(err)) { if (FAULTED()) { CLS(CL_FAULT_FAILED); return; } FAILK("set-refused", "%s returns error %d", c->what, err); return; }
     m_set(m, k, valbuf, len);
     CLS(CL_ALIAS);
     if (k == a && old != len) CLS(CL_ALIAS_SELF);
@@ -668,7 +679,7 @@ static void op_dupcopy(struct ctx *c, bool copy)
     m->d = copy ? udict_copy(c->mgr, c->md[s].d) : udict_dup(c->md[s].d);
     R("  %s -> %s\n", c->what, m->d ? "ok" : "NULL");
     c->hash = vp_hash_mix(c->hash, s * 8 + slot);
-    if (!m->d) { FAILK("dup-refused", "%s fails", c->what); return; }
+    if (!m->d) { if (FAULTED()) { CLS(CL_FAULT_FAILED); return; } FAILK("dup-refused", "%s fails", c->what); return; }
     m_copy(m, &c->md[s]);
     m->cap = m_used(c, m) > (size_t)c->min_eff ? m_used(c, m) : (size_t)c->min_eff;
     m->from_dup = c->md[s].from_dup = true;
@@ -692,7 +703,19 @@ static void op_import(struct ctx *c)
     c->hash = vp_hash_mix(c->hash, dst * 8 + src);
     int err = udict_import(md->d, ms->d);
     R("  %s -> %d\n", c->what, err);
-    if (!ubase_check(err)) { FAILK("import-refused", "%s returns error %d", c->what, err); return; }
+    if (!ubase_check(err)) {
+        if (!FAULTED()) { FAILK("import-refused", "%s returns error %d", c->what, err); return; }
+        /* a refused allocation stopped the import: every attribute of the source is in the destination either as the source
+         * has it (imported before the failure) or as it was; check_all then compares everything with the model */
+        CLS(CL_FAULT_FAILED);
+        vp_fault_disarm();
+        for (int k = 0; k < NKEYS; k++) if (ms->e[k].present) {
+            uint8_t got[16]; const uint8_t *gp; size_t gn;
+            if (ubase_check(real_get(c, md->d, k, got, &gp, &gn)) && gn == ms->e[k].size && !memcmp(gp, ms->e[k].v, gn))
+                m_set(md, k, ms->e[k].v, ms->e[k].size);
+        }
+        return;
+    }
     for (int k = 0; k < NKEYS; k++) if (ms->e[k].present) {
         if (md->e[k].present) { CLS(CL_IMPORT_OVER); if (md->e[k].size != ms->e[k].size) { CLS(CL_IMPORT_RESIZE); CLS(CL_REPL_DIFF); } }
         m_set(md, k, ms->e[k].v, ms->e[k].size);
@@ -774,7 +797,8 @@ static int run(const uint8_t *tp_, size_t len, struct vp_report *rep, unsigned f
     if (!c->umem) return vp_internal(rep, "umem_count_mgr_alloc");
     c->mgr = udict_inline_mgr_alloc(depth, c->umem, minsz, extra);
     if (!c->mgr) { umem_mgr_release(c->umem); return vp_internal(rep, "udict_inline_mgr_alloc"); }
-    R("C10 udict_inline manager: pool_depth=%d min_size=%d extra_size=%d\n", depth, minsz, extra);
+    c->faultmode = cfg >= 216;          /* (216..255 alias other configurations) */
+    R("C10 udict_inline manager: pool_depth=%d min_size=%d extra_size=%d%s\n", depth, minsz, extra, c->faultmode ? " [allocation faults]" : "");
     if (depth) CLS(CL_POOL);
 
     static const int isz[] = { 0, 1, 2, 200, 70000, 129, 7, 64 };
@@ -799,8 +823,10 @@ static int run(const uint8_t *tp_, size_t len, struct vp_report *rep, unsigned f
     int nops = 0;
     while (!tp_done(&c->t) && nops < MAXOPS && !c->ret) {
         nops++;
-        uint8_t op = tp_u8(&c->t) % 32;
+        uint8_t opb = tp_u8(&c->t), op = opb % 32;
         c->hash = vp_hash_mix(c->hash, op);
+        unsigned nth = (c->faultmode && opb >= 128) ? 1 + (opb >> 5) % 4 : 0;
+        vp_fault_arm(nth);
         c->what[0] = 0;
         c->touched = -1;
         if (op <= 13) op_set(c);
@@ -814,6 +840,8 @@ static int run(const uint8_t *tp_, size_t len, struct vp_report *rep, unsigned f
         else if (op == 29) op_free(c);
         else if (op == 30) op_probe(c);
         else op_set(c);
+        vp_fault_disarm();
+        if (nth && FAULTED()) { CLS(CL_FAULT); c->hash = vp_hash_mix(c->hash, 0xfa00 + nth); R("    (allocation %u inside the operation was refused)\n", nth); }
         if (nlive(c) >= 3) CLS(CL_MULTI);
         if (!c->ret) check_all(c);
         /* comparison of the changed dictionary with every other one, both argument orders */
@@ -835,7 +863,10 @@ static int run(const uint8_t *tp_, size_t len, struct vp_report *rep, unsigned f
     if (!leak && st->live) { snprintf(lm, sizeof lm, "%ld memory areas (%ld octets) still allocated", st->live, st->live_bytes); leak = lm; }
     if (!leak && !umem_count_single(c->umem)) leak = "umem manager still referenced";
     umem_mgr_release(c->umem);
-    if (leak && !c->ret) c->ret = vp_internal(rep, "fixture: %s", leak);
+    if (leak && !c->ret) {
+        if (c->faultmode && (c->cls & (1ull << CL_FAULT))) { c->opname = "end"; FAILK("leak-after-refused-allocation", "%s", leak); }
+        else c->ret = vp_internal(rep, "fixture: %s", leak);
+    }
 
     rep->case_hash = c->hash;
     rep->classes = c->cls;
